@@ -21,6 +21,9 @@ ASSUMPTIONS = [
     'C14: quotient/remainder oracles use the C operators / and % in a wider type (64-bit: same width), i.e. CBMC division semantics are trusted',
 ]
 
+# translator option (engine/ll2c.py): signed division at the operand width, and x % y right after x / y reuses the quotient
+LL2C_FLAGS = ['--divrem-narrow']
+
 TYPES = [('u8', 'uint8_t', 0, 8), ('i8', 'int8_t', 1, 8), ('u16', 'uint16_t', 0, 16), ('i16', 'int16_t', 1, 16),
          ('u32', 'uint32_t', 0, 32), ('i32', 'int32_t', 1, 32), ('u64', 'uint64_t', 0, 64), ('i64', 'int64_t', 1, 64)]
 UNSIGNED_ONLY = ['popcount', 'popcount_fb', 'countl_zero', 'countl_one', 'countr_zero', 'countr_one', 'bit_width', 'bit_ceil', 'bit_floor',
